@@ -210,6 +210,7 @@ func (ps *Pieces) ReadAt(p []byte, off int64) (int, error) {
 	index := int(off / int64(ps.pieceSize))
 	begin := int(off % int64(ps.pieceSize))
 
+	verifYield("ReadAt.beforeLock")
 	ps.mu.RLock()
 	defer ps.mu.RUnlock()
 
@@ -241,6 +242,7 @@ func (ps *Pieces) AddData(index uint32, begin uint32, data []byte, peer uint32) 
 		return
 	}
 
+	verifYield("AddData.beforeLock")
 	ps.mu.Lock()
 	defer ps.mu.Unlock()
 
@@ -313,6 +315,7 @@ func (ps *Pieces) Finalise(index uint32, h hash.Hash) (done bool, peers []uint32
 		return
 	}
 
+	verifYield("Finalise.beforeLock")
 	ps.mu.Lock()
 	defer ps.mu.Unlock()
 
@@ -335,8 +338,10 @@ func (ps *Pieces) Finalise(index uint32, h hash.Hash) (done bool, peers []uint32
 	ps.pieces[index].setState(0, stateBusy)
 	ps.mu.Unlock()
 
+	verifYield("Finalise.beforeHash")
 	hsh := sha1.Sum(data)
 	hh := hash.Hash(hsh[:])
+	verifYield("Finalise.afterHash")
 
 	ps.mu.Lock()
 	peers = ps.pieces[index].peers
@@ -365,6 +370,7 @@ func (ps *Pieces) del(p uint32, force bool) (done bool, complete bool) {
 		ps.mu.Unlock()
 		t := 10 * time.Microsecond
 		for ps.pieces[p].Busy() {
+			verifYield("del.wait")
 			time.Sleep(t)
 			if t < 10*time.Millisecond {
 				t = t * 2
@@ -472,6 +478,7 @@ func (ps *Pieces) Expire(bytes int64, available []uint16, f func(index uint32)) 
 		return cmp.Compare(t[j], t[i])
 	})
 
+	verifYield("Expire.beforeBytes")
 	todo := ps.Bytes() - bytes
 
 	count := 0
@@ -480,6 +487,7 @@ func (ps *Pieces) Expire(bytes int64, available []uint16, f func(index uint32)) 
 		if todo <= 0 {
 			break
 		}
+		verifYield("Expire.beforeDel")
 		ps.mu.Lock()
 		done, complete := ps.del(index, false)
 		ps.mu.Unlock()
@@ -496,6 +504,7 @@ func (ps *Pieces) Expire(bytes int64, available []uint16, f func(index uint32)) 
 
 // Del discards the contents of a torrent from memory.
 func (ps *Pieces) Del() {
+	verifYield("Del.beforeLock")
 	ps.mu.Lock()
 	defer ps.mu.Unlock()
 	for i := uint32(0); i < uint32(len(ps.pieces)); i++ {
